@@ -68,7 +68,7 @@ func isPositionalName(s string) bool {
 	return true
 }
 
-var c20Names = []string{"a", "A", "b", "1", "10", "01", "0", "@", "#", "?", "!"}
+var c20Names = []string{"a", "A", "b", "1", "10", "01", "0", "@", "#", "?", "!", "٣", "١٢"}
 
 func c20Check(env *interp.ExecEnv, m *storeModel, names []string) {
 	for _, n := range names {
